@@ -1,8 +1,9 @@
 """C19 — New instances get typed defaults and fresh non-null identifiers: contracts on the id generators and default_value."""
 from pyvc.spec import Module, Raises, Loop
-from pyvc.sorts import INT, BOOL, STR, VAL, NONE, RefT, SeqT, MapT, TupT
+from pyvc.sorts import PyTuple, PyDict, INT, BOOL, STR, VAL, NONE, RefT, SeqT, MapT, TupT
 
 M = Module('contracts.c19', prop='C19')
+M.use('contracts.base', 'contracts.c10')
 
 M.fields({
     'IdGenerator._current': INT,
@@ -80,3 +81,36 @@ M.contract('xtuml.meta.MetaClass.default_value', [('self', MC), ('type_name', ST
            },
            raises=[Raises('MetaException', when='not known_type(type_name)')],
            modifies=['self.metamodel.id_generator._current'])
+
+# ---- MetaClass.new without arguments: every plain attribute gets its typed default (composition of default_value and contracts.c10's __setattr__)
+from .base import INST
+M.fields({'type.metaclass': MC})
+M.spec('''
+def nonref(mc, j):
+    return mc.attributes[j][0] not in mc.referential_attributes
+
+def typed_default(v, ty):
+    t = upper(ty)
+    return ((t != 'BOOLEAN' or (is_bool(v) and v == False)) and (t != 'INTEGER' or (is_int(v) and v == 0)) and (t != 'REAL' or (is_real(v) and v == 0.0))
+            and (t != 'STRING' or (is_str(v) and v == '')) and (t != 'UNIQUE_ID' or is_int(v)))
+
+def distinct_names(mc):
+    return all(all(implies(i != j, upper(mc.attributes[i][0]) != upper(mc.attributes[j][0])) for j in range(0, len(mc.attributes))) for i in range(0, len(mc.attributes)))
+
+def defaults_set(mc, inst, k):
+    return all(implies(nonref(mc, j), mc.attributes[j][0] in inst.__dict__ and typed_default(inst.__dict__[mc.attributes[j][0]], mc.attributes[j][1])) for j in range(0, k))
+''')
+M.contract('xtuml.meta.MetaClass.new@defaults', [('self', MC)], returns=INST, statics={'args': PyTuple(()), 'kwargs': PyDict({})},
+           requires={'wf': 'self.clazz is not None and self.clazz.metaclass is self and self.metamodel is not None and self.metamodel.id_generator is not None',
+                     'declared-names-distinct': 'distinct_names(self)',
+                     'known-types': 'all(known_type(a[1]) for a in self.attributes)',
+                     'plain-attributes-are-not-properties': 'all(all(implies(nonref(self, j), not has_property(x, self.attributes[j][0])) for j in range(0, len(self.attributes))) for x in anyref("Class"))'},
+           ensures={'a-new-stored-instance': 'fresh(result) and self.storage == old(self.storage) + [result] and result.__metaclass__ is self',
+                    'every-plain-attribute-has-its-typed-default-or-the-next-identifiers': 'defaults_set(self, result, len(self.attributes))',
+},
+           modifies=['self.storage', 'self.metamodel.id_generator._current'],
+           loops={0: Loop(inv={'iterates': '_seq == self.attributes', 'set-so-far': 'defaults_set(self, inst, _i)',
+                               'stored': 'self.storage == old(self.storage) + [inst] and inst.__metaclass__ is self and fresh(inst)',
+                               'others-untouched': 'all(implies(x is not inst, same(x.__dict__, old(x.__dict__))) for x in anyref("Class"))'}, modifies=['Class.__dict__']),
+                  },
+           locals={'referential_attributes': MapT(STR, VAL)})
